@@ -238,7 +238,10 @@ OvProg(id, ov) ==
                                                 Sh(NameBar, "query", "ok"), Sh(<<"z">>, "sudo", "err"),
                                                 Sh(NameMigrate, "migrate", "ok") >>] >>]
 OverrideProgs == << OvProg("O1", {"instantiate"}), OvProg("O2", {"exec"}), OvProg("O3", {"query"}), OvProg("O4", {"sudo"}),
-                    OvProg("O5", {"migrate"}), OvProg("O6", {"exec", "sudo"}), OvProg("O7", {"instantiate", "query", "migrate"}) >>
+                    OvProg("O5", {"migrate"}), OvProg("O6", {"exec", "sudo"}), OvProg("O7", {"instantiate", "query", "migrate"}),
+                    \* the reply entry point served by the user's own function (it takes the chain's Reply, no document: only the build and
+                    \* the other kinds are judged on the routing corpus)
+                    OvProg("O8", {"reply"}), OvProg("O9", {"migrate", "reply"}) >>
 
 (* programs in which two parts share a wire name (C05): they must not build *)
 ColProg(id, a, ka, b, kb, na, nb) ==       \* part a declares na with kind ka, part b declares nb with kind kb
